@@ -39,6 +39,10 @@ CHECKS = {
    text="Per shape with symbolic labels and attributes: cleanup (all 32 flag sets: exactly the requested guarantees, only deletions/merges, nothing dropped that no guarantee excludes, input untouched), integer relabelling (isomorphism, 0..n-1/0..m-1, old labels recorded, attributes kept; three classes), subhypergraph with one symbolic bit per node and per edge plus absent ids, dual and dual-of-dual, << on pairs of shapes with overlapping labels, complement, cut_to_order/k_skeleton with symbolic order, from_max_simplices, largest_connected_hypergraph - each against a brute-force set-theoretic construction.",
    note="As C01. cleanup(connected=True) exercised on networks with at least one node.",
    technique="bounded symbolic execution (z3) against brute-force oracles over enumerated shapes with symbolic labels/selections"),
+ "C05": dict(level=MC, ref="5/C05",
+   text="One-step differential between the real Hypergraph/DiHypergraph mutators and an executable transcription of their docstrings (vx/refmodel.py): same symbolic pre-state (labels, counter, attribute values), same op, same symbolic arguments through a twin run; on every path the full observable snapshot (node order, edge order, members or tail/head, three attribute levels, next automatic id), the outcome kind (returns / library error) and the warning behaviour agree. double_edge_swap and random_edge_shuffle (all redistributions through the RNG stub) keep every degree, size, id and attribute and exchange exactly what they document.",
+   note="Trusted: the ~400-line reference model; ambiguous documentation points follow the implementation and are listed in the evidence assumptions. SimplicialComplex semantics are decided under C03.",
+   technique="bounded symbolic execution (z3), differential against an executable reference model with shared symbolic arguments"),
 }
 NOT_APPLICABLE = {
  "C11": "disk round trips: every value that reaches a file passes through json/numpy C encoders which reject or realise a symbolic proxy, so no solver variable can cross the file boundary; in-memory halves are decided under C10/C04",
